@@ -1568,10 +1568,27 @@ def data_crdt_store_ns_gossip():
 # consensus
 # =====================================================================================================
 
-def _cluster(cls, n, net_lat, **kw):
+class _ListStateMachine:
+    """A user-defined StateMachine (the protocol of raft_state_machine.StateMachine)."""
+
+    def __init__(self):
+        self.applied = []
+
+    def apply(self, command):
+        self.applied.append(command)
+        return len(self.applied)
+
+    def snapshot(self):
+        return list(self.applied)
+
+    def restore(self, snapshot):
+        self.applied = list(snapshot)
+
+
+def _cluster(cls, n, net_lat, per_node=None, **kw):
     from happysimulator.components.network.network import Network
     net = Network(name="net")
-    nodes = [cls(name=f"node-{i}", network=net, **kw) for i in range(n)]
+    nodes = [cls(name=f"node-{i}", network=net, **kw, **(per_node(i) if per_node else {})) for i in range(n)]
     for nd in nodes:
         nd.set_peers([x for x in nodes if x is not nd])
     _mesh(net, nodes, lat=net_lat)
@@ -1670,7 +1687,8 @@ def data_multi_paxos_heartbeats():
     commands submitted to leader and followers, old leader partitioned."""
     from happysimulator.components.consensus.multi_paxos import MultiPaxosNode
     _seed(73)
-    net, nodes = _cluster(MultiPaxosNode, 3, THIRD / 10, leader_lease_timeout=P7, heartbeat_interval=H3)
+    net, nodes = _cluster(MultiPaxosNode, 3, THIRD / 10, leader_lease_timeout=P7, heartbeat_interval=H3,
+                          per_node=lambda i: {"state_machine": _ListStateMachine()})
     futs = []
     handle = {}
 
@@ -1897,7 +1915,7 @@ def data_raft_heartbeat_meets_timeout():
     lat = THIRD / 10
     hb = H3
     net, nodes = _cluster(RaftNode, 3, lat, election_timeout_min=hb + lat, election_timeout_max=hb + lat,
-                          heartbeat_interval=hb)
+                          heartbeat_interval=hb, per_node=lambda i: {"state_machine": _ListStateMachine()})
     futs = []
 
     def ctl(w, ev):
@@ -2143,6 +2161,38 @@ def data_ns_period_consensus():
     _run([net, *les], end=1e-6, starters=[n.start for n in les])
     out["le"] = sorted({str(n.current_leader) for n in les})
     return out
+
+
+def data_far_from_epoch_submicro_periods():
+    """start_time = 1.7e9 s (float seconds resolve 238 ns there) and periods of 100 ns, first tick 5 ns
+    after the start: EventLog retention sweep, StreamProcessor watermark, LeaderNode anti-entropy,
+    CRDTStore gossip.  End 20 us after the start."""
+    from happysimulator.components.crdt import CRDTStore, GCounter
+    from happysimulator.components.network.network import Network
+    from happysimulator.components.replication.multi_leader import LeaderNode
+    from happysimulator.components.streaming.event_log import EventLog, SizeRetention
+    from happysimulator.components.streaming.stream_processor import StreamProcessor, TumblingWindow
+    _seed(87)
+    t0 = Instant.from_seconds(1_700_000_000)
+    at = lambda ns: Instant(t0.nanoseconds + ns)
+    p = 100 * NS
+    sink = Sink("sink")
+    log = EventLog("log", num_partitions=1, retention_policy=SizeRetention(1), append_latency=5 * NS,
+                   retention_check_interval=p)
+    sp = StreamProcessor("sp", TumblingWindow(10 * p), len, sink, watermark_interval_s=p)
+    net = Network(name="net")
+    ls = [LeaderNode(f"l{i}", _kv(f"s{i}", rl=NS, wl=NS), net, anti_entropy_interval=p) for i in range(2)]
+    cs = [CRDTStore(f"c{i}", net, crdt_factory=lambda nid: GCounter(nid), gossip_interval=p) for i in range(2)]
+    for grp in (ls, cs):
+        for x in grp:
+            x.add_peers([y for y in grp if y is not x])
+        _mesh(net, grp, lat=NS * 50)
+    evs = [Event(time=at(0), event_type="Append", target=log, context={"key": "k", "value": 0}),
+           Event(time=at(5), event_type="Process", target=sp, context={"key": "k", "value": 0}),
+           Event(time=at(5), event_type="AntiEntropy", target=ls[0], daemon=True),
+           Event(time=at(5), event_type="GossipTick", target=cs[0], daemon=True)]
+    _run([log, sp, sink, net, *ls, *cs], evs, start=t0, end=at(20_000))
+    return {"syncs": ls[0].stats.anti_entropy_syncs, "gossip": cs[0].stats.gossip_sent}
 
 
 SCENARIOS = {}
